@@ -13,7 +13,7 @@ import plans
 GEN = ["Aggr"]
 RULE = ("P (plan capture): for random requests (subsets of count / mean / var / cov over up to 4 columns, duplicates and "
         "unsorted pairs, grouped and ungrouped) the plan reified from the REAL narwhals builder and from both branches of "
-        "the REAL ibis builder must equal model/ReadPlan.plan_of_spec (plan_eqb by vm_compute). X (backends): "
+        "the REAL ibis builder must equal model/ReadPlan.plan_of_spec up to the order of the operands of + and * (plan_eqc by vm_compute; sound by C01_plan_comparison_is_sound). X (backends): "
         "read_aggregates on pandas / polars / polars-lazy / pyarrow / ibis-sqlite tables (int and float columns, offsets "
         "1e6..1e12, ties, 1..4 variants with int / str / bool ids) vs exact Fraction statistics with a conditioning-scaled "
         "tolerance; one result per variant; de-duplication and pair ordering of the request")
@@ -73,7 +73,7 @@ def correspondence(ctx):
             except Exception as e:
                 ctx.oblige(False, "correspondence", f"plan capture failed for {b}", repr(e), {"request": req, "group": group})
                 continue
-            terms.append(f"plan_eqb {captured} (plan_of_spec {b} {reqt} {g})")
+            terms.append(f"plan_eqc {captured} (plan_of_spec {b} {reqt} {g})")
             cases.append({"builder": b, "request": req, "group": group, "captured": captured})
             ctx.count("builder:" + b)
         ctx.case_seen((repr(req), group), nontrivial=bool(val["var_cols"] or val["cov_cols"]))
